@@ -26,7 +26,7 @@ from bv.stacks.netsys import NetSystem, run_execution, know_of
 
 PROPERTY = "C06"
 LEVEL = "model_checking"
-BUDGET = {"quick": 90.0, "thorough": 900.0}
+BUDGET = {"quick": 90.0, "thorough": 1500.0}
 RULE = ("configurations: every unlabeled tree of N networks joined by routers with 2..4 ports (AHU-canonical enumeration), "
         "every vector of stations per network up to tree automorphism, table mode, population mode (who knows its network "
         "number), reply timing; inputs: every (source station, destination) with destination in {each other station in "
